@@ -517,6 +517,26 @@ def oracle_C12(rs, n, ctx):
                 key = "C12:evaluation-single-sample-axis" if single else "C12:evaluation"
                 R.violate(key, f"IndexError in {name}: {ex}", dict(rep, points_hex=hexl(pts), call=name))
                 break
+        # history: the kernels' index safety rests on the axes handed to them having the length of the grid's CURRENT shape;
+        # evaluate a model that was evaluated, then resampled to a coarser and to a finer shape (no rs consumption)
+        if it % 2 == 0 and min(info["cells"]) >= 2:
+            rs2 = np.random.RandomState(9000011 + it)
+            Em = eik(nd)(np.array(info["v"], dtype=float, copy=True), info["d"], info["o"])
+            try:
+                Em(pts[0])
+                for nshape in (tuple(max(2, c // 2) for c in info["cells"]), tuple(2 * c + 1 for c in info["cells"])):
+                    Em.resample(nshape)
+                    lo_ = [info["o"][a_] for a_ in range(nd)]
+                    hi_ = [info["o"][a_] + Em.gridsize[a_] * (nshape[a_] - 1) for a_ in range(nd)]
+                    q_ = np.array([[lo_[a_] + rs2.rand() * (hi_[a_] - lo_[a_]) for a_ in range(nd)] for _ in range(5)] + [hi_, lo_])
+                    Em(q_)
+                    Em(q_[0])
+            except (IndexError, SystemError) as ex:
+                if isinstance(ex, SystemError) and not isinstance(ex.__cause__, IndexError):
+                    raise
+                R.violate("C12:evaluation-after-resample", f"IndexError evaluating a model after resample: {ex}", dict(rep, call="model(points) after resample"))
+            except Exception as ex:  # noqa: BLE001
+                R.bump("other_exception_after_resample")
         for p in pts:
             for honor in (False, True):
                 kw = {"honor_grid": honor}
